@@ -63,33 +63,46 @@ func checkConstIndexBounded(c *engine.Ctx, rule string) {
 			}
 			// a matcher handed to golib's connection mux together with the number of bytes it needs: the mux calls it
 			// with at least that many bytes
-			if pr, ok := engine.Unwrap(ia.X).(*ssa.Parameter); ok && f.Parent() != nil && len(f.Params) > 0 && pr == f.Params[len(f.Params)-1] {
-				engine.ForEachInstr(f.Parent(), func(x ssa.Instruction) {
-					call, ok := x.(*ssa.Call)
-					if !ok {
-						return
-					}
-					o := engine.CalleeObj(call)
-					if o == nil || o.Name() != "Listen" || o.Pkg() == nil || o.Pkg().Path() != "github.com/fatedier/golib/net/mux" {
-						return
-					}
-					args := engine.CallArgs(call)
-					if len(args) < 4 {
-						return
-					}
-					fnArg := args[3]
-					if ct, ok := fnArg.(*ssa.ChangeType); ok {
-						fnArg = ct.X
-					}
-					if mc, ok := fnArg.(*ssa.MakeClosure); ok {
-						fnArg = mc.Fn
-					}
-					if fnArg == ssa.Value(f) {
-						if need, ok := engine.ConstInt(args[2]); ok && need > idx {
-							known = true
+			if pr, ok := engine.Unwrap(ia.X).(*ssa.Parameter); ok && len(f.Params) > 0 && pr == f.Params[len(f.Params)-1] {
+				scan := func(g *ssa.Function, visit func(x ssa.Instruction)) { engine.ForEachInstr(g, visit) }
+				var hosts []*ssa.Function
+				if f.Parent() != nil {
+					hosts = []*ssa.Function{f.Parent()}
+				} else if f.Pkg != nil {
+					for _, g := range p.RepoFuncs() {
+						if g.Pkg == f.Pkg {
+							hosts = append(hosts, g)
 						}
 					}
-				})
+				}
+				for _, host := range hosts {
+					scan(host, func(x ssa.Instruction) {
+						call, ok := x.(*ssa.Call)
+						if !ok {
+							return
+						}
+						o := engine.CalleeObj(call)
+						if o == nil || o.Name() != "Listen" || o.Pkg() == nil || o.Pkg().Path() != "github.com/fatedier/golib/net/mux" {
+							return
+						}
+						args := engine.CallArgs(call)
+						if len(args) < 4 {
+							return
+						}
+						fnArg := args[3]
+						if ct, ok := fnArg.(*ssa.ChangeType); ok {
+							fnArg = ct.X
+						}
+						if mc, ok := fnArg.(*ssa.MakeClosure); ok {
+							fnArg = mc.Fn
+						}
+						if fnArg == ssa.Value(f) {
+							if need, ok := engine.ConstInt(args[2]); ok && need > idx {
+								known = true
+							}
+						}
+					})
+				}
 			}
 			if known {
 				return
